@@ -364,7 +364,10 @@ func c03Signals(c *vf.Case, w *sim.World) {
 		el := time.Since(t0)
 		close(done)
 		c.Logf("round %d: infinite=%v returned %v after %v (handlers so far: %d)", round, infinite, rerr, el, op.Calls)
-		if rerr != nil && !errors.Is(rerr, sonicerrors.ErrTimeout) {
+		if infinite && rerr != nil {
+			// RunOne() has no timeout to report: whatever it returns besides nil here is the interruption reported as an error
+			c.Failf("signal-interrupted-wait-reported-as-error", "RunOne() (no timeout) interrupted by SIGUSR1 returned %v", rerr)
+		} else if rerr != nil && !errors.Is(rerr, sonicerrors.ErrTimeout) {
 			c.Failf("signal-interrupted-wait-reported-as-error", "wait interrupted by SIGUSR1 returned %v", rerr)
 		}
 		if el < 150*time.Millisecond && op.Calls == 0 {
